@@ -58,18 +58,19 @@ pub fn check(snap: &Snap) -> DelaunayReport {
             rep.strict = false;
             continue;
         }
+        let o = exact::orient(&pts);
+        if o.sign == 0 || !o.decidable {
+            // flat (or flat within the tolerance band) simplex: in-sphere undefined
+            rep.degenerate_cells += 1;
+            rep.strict = false;
+            continue;
+        }
         for v in &snap.verts {
             if c.verts.contains(&v.key) {
                 continue;
             }
             rep.pairs += 1;
             let s = exact::insphere(&pts, &v.coords);
-            if s.sign == 0 && !s.decidable {
-                // degenerate simplex
-                rep.degenerate_cells += 1;
-                rep.strict = false;
-                break;
-            }
             if !s.decidable {
                 rep.abstained += 1;
                 rep.strict = false;
@@ -129,4 +130,15 @@ pub fn check(snap: &Snap) -> DelaunayReport {
         }
     }
     rep
+}
+
+#[cfg(test)]
+mod regress {
+    #[test]
+    fn c08_snap() {
+        let Ok(text) = std::fs::read_to_string("/root/scratch/c08b.snap.json") else { return };
+        let snaps: Vec<crate::snap::Snap> = serde_json::from_str(&text).unwrap();
+        let r = super::check(&snaps[0]);
+        eprintln!("violations {:x?} abst {} local {} facets {} deg {}", r.violations, r.abstained, r.local_violations, r.local_facets, r.local_facets_degenerate_flip);
+    }
 }
